@@ -18,6 +18,8 @@ theorem callingResetAfterRun_tie : callingResetAfterRun = true := rfl
 /-- the parts of the code's shape that the model of the functor queue takes for granted (not parameters of `step`) -/
 theorem shape_tie : drainEachIteration = true ∧ loopingBracket = true ∧ callingSetBeforeSwap = true ∧
     appendUnderLock = true := ⟨rfl, rfl, rfl, rfl⟩
+/-- `wakeup()` makes the eventfd readable (`ev + 1` in the model), `handleRead()` drains it (`ev := 0`) -/
+theorem eventfd_tie : wakeupWritesOne = true ∧ handleReadDrains = true := ⟨rfl, rfl⟩
 
 /-- bring the ties into the context of a case analysis -/
 macro "ties" : tactic => `(tactic| (
